@@ -42,8 +42,52 @@ func crafted() []string {
 		{Obj: "doc:1", Rel: "viewer", User: "group:g#member"},
 	}
 	rq := fga.Req{Obj: "doc:1", Rel: "viewer", User: "user:x"}
-	return []string{fmt.Sprintf("cfg 25 1 %s %s %s %s %s", m.Encode(), fga.EncodeAux(fga.Aux(m, ts, rq.User)),
+	out := []string{fmt.Sprintf("cfg 25 1 %s %s %s %s %s", m.Encode(), fga.EncodeAux(fga.Aux(m, ts, rq.User)),
 		fga.EncodeTuples("tuples", tuples), fga.EncodeTuples("ctx", nil), rq.Encode())}
+	// large fan-out through the weight-two set operations (several batches of the fast-path streams):
+	// member = (a or b) but not c / (a and b), the subject is in a few hundred groups, the document
+	// names one of the LAST ones.
+	for _, kind := range []string{"diff", "inter", "union"} {
+		var mem *fga.Rewrite
+		ab := &fga.Rewrite{Kind: "union", Kids: []*fga.Rewrite{{Kind: "cu", Rel: "a"}, {Kind: "cu", Rel: "b"}}}
+		switch kind {
+		case "diff":
+			mem = &fga.Rewrite{Kind: "diff", Kids: []*fga.Rewrite{ab, {Kind: "cu", Rel: "c"}}}
+		case "inter":
+			mem = &fga.Rewrite{Kind: "inter", Kids: []*fga.Rewrite{{Kind: "cu", Rel: "a"}, {Kind: "cu", Rel: "b"}}}
+		default:
+			mem = ab
+		}
+		u := fga.Restr{Typ: "user"}
+		bm := &fga.Model{Types: []*fga.TypeDef{{Name: "user"},
+			{Name: "group", Rels: []*fga.RelDef{
+				{Name: "a", Rewrite: this(), Restrs: []fga.Restr{u}}, {Name: "b", Rewrite: this(), Restrs: []fga.Restr{u}},
+				{Name: "c", Rewrite: this(), Restrs: []fga.Restr{u}}, {Name: "member", Rewrite: mem}}},
+			{Name: "doc", Rels: []*fga.RelDef{{Name: "viewer", Rewrite: this(), Restrs: []fga.Restr{{Typ: "group", Rel: "member"}}}}}}}
+		bts, err := typesystem.NewAndValidate(context.Background(), bm.Proto(fgarun.ModelID))
+		if err != nil {
+			panic(err)
+		}
+		var bt []fga.Tuple
+		for i := 0; i < 260; i++ {
+			g := fmt.Sprintf("group:g%03d", i)
+			bt = append(bt, fga.Tuple{Obj: g, Rel: "a", User: "user:x"})
+			if i%2 == 0 || kind == "inter" {
+				bt = append(bt, fga.Tuple{Obj: g, Rel: "b", User: "user:x"})
+			}
+			if i%7 == 0 {
+				bt = append(bt, fga.Tuple{Obj: g, Rel: "c", User: "user:x"})
+			}
+		}
+		bt = append(bt, fga.Tuple{Obj: "doc:1", Rel: "viewer", User: "group:g257#member"})
+		bt = append(bt, fga.Tuple{Obj: "doc:2", Rel: "viewer", User: "group:g252#member"}) // 252 = 7*36: excluded under diff
+		for _, o := range []string{"doc:1", "doc:2"} {
+			brq := fga.Req{Obj: o, Rel: "viewer", User: "user:x"}
+			out = append(out, fmt.Sprintf("cfg 25 1 %s %s %s %s %s", bm.Encode(), fga.EncodeAux(fga.Aux(bm, bts, brq.User)),
+				fga.EncodeTuples("tuples", bt), fga.EncodeTuples("ctx", nil), brq.Encode()))
+		}
+	}
+	return out
 }
 
 func gen(r *hx.Rand, n int, tier string, emit func(string), st *hx.Stats) {
